@@ -224,16 +224,34 @@ pub fn one_case<R: Src>(r: &mut R, id: &str) -> Option<(IllCase, (String, String
             None => false,
             Some(x) => {
                let s = items[rule_item].trim_end_matches(';').to_string();
+               // the rebinding pattern is a plain identifier / constructor pattern, or one of the compound forms (tuple,
+               // or-pattern, at-binding, reference) in which the binder is nested
+               let form = r.below(5);
+               let pat = |x: &str| match form {
+                  0 => x.to_string(),
+                  1 => format!("({x}, _)"),
+                  2 => format!("({x}, _) | (_, {x})"),
+                  3 => format!("{x} @ (_, _)"),
+                  _ => format!("(_, {x})"),
+               };
+               let tuple_val = "(1i32, 2i32)";
                let add = match op {
-                  "rebind_let" => format!(", let {x} = 1i32"),
-                  "rebind_if_let" => format!(", if let Some({x}) = Some(1i32)"),
-                  "rebind_for" => format!(", for {x} in 0i32..2i32"),
+                  "rebind_let" if form == 0 => format!(", let {x} = 1i32"),
+                  "rebind_let" => format!(", let {} = {tuple_val}", pat(&x)),
+                  "rebind_if_let" if form == 0 => format!(", if let Some({x}) = Some(1i32)"),
+                  "rebind_if_let" if form == 2 => format!(", if let Ok({x}) | Err({x}) = Ok::<i32, i32>(1i32)"),
+                  "rebind_if_let" => format!(", if let Some({}) = Some({tuple_val})", pat(&x)),
+                  "rebind_for" if form == 0 => format!(", for {x} in 0i32..2i32"),
+                  "rebind_for" => format!(", for {} in [{tuple_val}]", pat(&x)),
                   _ => {
                      let d = &prog.rels[0];
                      format!(", agg {x} = ::ascent::aggregators::count() in {}({})", d.name, wildcards(d.cols.len()))
                   },
                };
                new_items[rule_item] = format!("{s}{add};");
+               if op != "rebind_agg" {
+                  site = format!("{site}:{}", ["plain", "tuple", "or_pattern", "at_binding", "tuple_second"][form]);
+               }
                true
             },
          },
